@@ -1,0 +1,280 @@
+//go:build verif
+
+// Contracts for the metadata persistence of nsqd.go (C06, C05), checked by nsqvc. Comment-only file.
+// The file-system ghosts (gfs*) are declared with the extern contracts in .trusted/gmeta.spec.
+
+package nsqd
+
+// O_WRONLY|O_CREATE|O_TRUNC on linux = 1|64|512
+//@ fn gWriteFlags() int := 577
+
+//@ func writeSyncFile(fn string, data []byte) error
+//@   props C06 C05
+//@   ensures[one-open] gfsOpens == old(gfsOpens) + 1 && gfsOpenName == fn
+//@   ensures[open-error-returned] gfsOpenErr != nil ==> result == gfsOpenErr && gfsWrites == old(gfsWrites) && gfsSyncs == old(gfsSyncs) && gfsCloses == old(gfsCloses)
+//@   ensures[ok-means-written] result == nil ==> gfsWrites == old(gfsWrites) + 1 && gfsWriteFile == gfsOpenFile && gfsWriteData == data && gfsWriteErr == nil && !gfsWriteAfterClose
+//@   ensures[ok-means-synced-after-write] result == nil ==> gfsSyncs == old(gfsSyncs) + 1 && gfsSyncFile == gfsOpenFile && gfsSyncErr == nil && gfsSyncSawWrites == gfsWrites && !gfsSyncAfterClose
+//@   ensures[write-error-returned] gfsOpenErr == nil && gfsWriteErr != nil ==> result == gfsWriteErr
+//@   ensures[sync-error-returned] gfsOpenErr == nil && gfsWriteErr == nil ==> result == gfsSyncErr
+//@   ensures[closed-on-every-path] gfsOpenErr == nil ==> gfsCloses == old(gfsCloses) + 1 && gfsCloseFile == gfsOpenFile && gfsOpenClosed
+//@   ensures[writes-only-data-to-fn] gfsWrites == old(gfsWrites) || (gfsWrites == old(gfsWrites) + 1 && gfsOpenErr == nil && gfsWriteFile == gfsOpenFile && gfsWriteData == data)
+//@   ensures[open-flags] gfsOpenFlag == gWriteFlags()
+//@   modifies gfsOpens, gfsOpenName, gfsOpenFlag, gfsOpenPerm, gfsOpenFile, gfsOpenErr, gfsOpenClosed, gfsWrites, gfsWriteFile, gfsWriteData, gfsWriteErr, gfsWriteAfterClose, gfsSyncs, gfsSyncFile, gfsSyncErr, gfsSyncSawWrites, gfsSyncAfterClose, gfsCloses, gfsCloseFile
+//@   nochan
+
+// ---- GetMetadata ------------------------------------------------------------------------------
+// Called with the NSQD lock held (PersistMetadata's callers), so the lock invariant of NSQD.RWMutex is
+// a precondition here. A topic entry of the document describes the topic object tp.
+//@ pred gTopicEntry(e TopicMetadata, tp *Topic, eph bool) := tp != nil && e.Name == tp.name && (e.Paused <==> tp.paused == 1) && (!tp.ephemeral || eph)
+//@ pred gChanEntry(e ChannelMetadata, ch *Channel) := ch != nil && e.Name == ch.name && (e.Paused <==> ch.paused == 1) && !ch.ephemeral
+//@ pred gTopicsOK(n *NSQD) := n != nil && n.topicMap != nil && (forall k string :: {n.topicMap[k]} has(n.topicMap, k) ==> n.topicMap[k] != nil)
+
+//@ ghost gMetaCalls int
+//@ ghost gMetaDoc *Metadata
+//@ ghost gMetaEph bool
+//@ ghost gMetaOf *NSQD
+// the number of Topic.doPause / Channel.doPause calls that had completed when the most recent document was built
+//@ ghost gMetaSawTopicPauses int
+//@ ghost gMetaSawChanPauses int
+
+//@ func (n *NSQD) GetMetadata(ephemeral bool) *Metadata
+//@   props C06 C05
+//@   nochan
+//@   requires[locked-map] gTopicsOK(n)
+//@   ensures[doc] result != nil && fresh(result)
+//@   ensures[topics-sound] forall i int :: {result.Topics[i]} 0 <= i && i < len(result.Topics) ==>
+//@        (exists k string :: {n.topicMap[k]} has(n.topicMap, k) && gTopicEntry(result.Topics[i], n.topicMap[k], ephemeral))
+//@   ensures[map-untouched] n.topicMap == old(n.topicMap) && len(n.topicMap) == old(len(n.topicMap))
+//@   modifies Topic.channelMap, mapstore(map[string]*Channel), gMetaCalls, gMetaDoc, gMetaEph, gMetaOf, gMetaSawTopicPauses, gMetaSawChanPauses
+//@   onreturn gMetaCalls := gMetaCalls + 1
+//@   onreturn gMetaDoc := result
+//@   onreturn gMetaEph := ephemeral
+//@   onreturn gMetaOf := n
+//@   onreturn gMetaSawTopicPauses := gTopicPauseCalls
+//@   onreturn gMetaSawChanPauses := gChanPauseCalls
+//@   loop 0
+//@     invariant[doc] meta != nil && fresh(meta) && fresh(meta.Topics)
+//@     invariant[topics-sound] forall i int :: {meta.Topics[i]} 0 <= i && i < len(meta.Topics) ==>
+//@        (exists k string :: {n.topicMap[k]} has(n.topicMap, k) && gTopicEntry(meta.Topics[i], n.topicMap[k], ephemeral))
+//@   loop 1
+//@     invariant[doc] meta != nil && fresh(meta) && fresh(meta.Topics) && topic != nil && fresh(topicData.Channels)
+//@     invariant[topic-entry] topicData.Name == topic.name && (topicData.Paused <==> topic.paused == 1) && (!topic.ephemeral || ephemeral)
+//@     invariant[channels-sound] forall j int :: {topicData.Channels[j]} 0 <= j && j < len(topicData.Channels) ==>
+//@        (exists c string :: {topic.channelMap[c]} has(topic.channelMap, c) && gChanEntry(topicData.Channels[j], topic.channelMap[c]))
+
+// ---- the metadata file name ---------------------------------------------------------------------
+//@ fn gMetaFileOf(dataPath string) string := gJoin2(dataPath, "nsqd.dat")
+//@ func newMetadataFile(opts *Options) string
+//@   props C06 C05
+//@   nochan
+//@   requires opts != nil
+//@   ensures[name] result == gMetaFileOf(opts.DataPath)
+//@   modifies
+
+// ---- PersistMetadata (C06: the file is only ever replaced atomically by a complete document) ----
+// curOpts(n): the options currently stored (fn declared with getOpts in zz_contracts_channel_verif.go).
+//@ func (n *NSQD) PersistMetadata() error
+//@   props C06 C05
+//@   nochan
+//@   requires[locked-map] gTopicsOK(n)
+//@   ensures[document-is-GetMetadata-false] gMetaCalls == old(gMetaCalls) + 1 && gMetaOf == n && !gMetaEph
+//@   ensures[marshal-of-that-document] gMarshals == old(gMarshals) + 1 && dyntype(gMarshalArg) == typetag("*Metadata") && unbox(gMarshalArg, "*Metadata") == gMetaDoc
+//@   ensures[marshal-error-returned] gMarshalErr != nil ==> result == gMarshalErr && gfsOpens == old(gfsOpens) && gfsRenames == old(gfsRenames)
+//@   ensures[at-most-one-file-opened] gfsOpens == old(gfsOpens) || gfsOpens == old(gfsOpens) + 1
+//@   ensures[never-opens-the-metadata-file] gfsOpens == old(gfsOpens) + 1 ==> gfsOpenName != gMetaFileOf(curOpts(n).DataPath)
+//@   ensures[writes-only-the-document] gfsWrites == old(gfsWrites) || (gfsWrites == old(gfsWrites) + 1 && gfsWriteFile == gfsOpenFile && gfsWriteData == gMarshalOut)
+//@   ensures[at-most-one-rename] gfsRenames == old(gfsRenames) || gfsRenames == old(gfsRenames) + 1
+//@   ensures[rename-tmp-to-metadata-file] gfsRenames == old(gfsRenames) + 1 ==> gfsRenameSrc == gfsOpenName && gfsRenameDst == gMetaFileOf(curOpts(n).DataPath)
+//@   ensures[rename-only-after-complete-synced-write] gfsRenames == old(gfsRenames) + 1 ==> gfsOpens == old(gfsOpens) + 1 && gfsOpenErr == nil &&
+//@        gfsWrites == old(gfsWrites) + 1 && gfsWriteErr == nil && gfsWriteData == gMarshalOut && gMarshalErr == nil &&
+//@        gfsSyncs == old(gfsSyncs) + 1 && gfsSyncFile == gfsOpenFile && gfsSyncErr == nil && gfsSyncSawWrites == gfsWrites && gfsOpenClosed
+//@   ensures[ok-means-replaced] result == nil ==> gfsRenames == old(gfsRenames) + 1 && gfsRenameErr == nil
+//@   ensures[rename-error-returned] gfsRenames == old(gfsRenames) + 1 ==> result == gfsRenameErr
+//@   ensures[write-error-returned] gMarshalErr == nil && gfsRenames == old(gfsRenames) ==> result != nil
+//@   ensures[document-built-now] gMetaSawTopicPauses == gTopicPauseCalls && gMetaSawChanPauses == gChanPauseCalls
+//@   ensures[topics-untouched] n.topicMap == old(n.topicMap)
+//@   modifies Topic.channelMap, mapstore(map[string]*Channel), gMetaCalls, gMetaDoc, gMetaEph, gMetaOf, gMetaSawTopicPauses, gMetaSawChanPauses, gMarshals, gMarshalArg, gMarshalOut, gMarshalErr,
+//@        gfsOpens, gfsOpenName, gfsOpenFlag, gfsOpenPerm, gfsOpenFile, gfsOpenErr, gfsOpenClosed, gfsWrites, gfsWriteFile, gfsWriteData, gfsWriteErr, gfsWriteAfterClose, gfsSyncs, gfsSyncFile, gfsSyncErr, gfsSyncSawWrites, gfsSyncAfterClose, gfsCloses, gfsCloseFile,
+//@        gfsRenames, gfsRenameSrc, gfsRenameDst, gfsRenameErr
+
+// ---- LoadMetadata -------------------------------------------------------------------------------
+// The most recent Topic.GetChannel call (set by onreturn lines added to its contract in zz_contracts_lookup_verif.go).
+//@ ghost gGotChanTopic *Topic
+//@ ghost gGotChanName string
+//@ ghost gGotChan *Channel
+//@ ghost gGotChanSawPauses int
+//@ ghostgroup watchCreated, gGotChanTopic, gGotChanName, gGotChan, gGotChanSawPauses
+// The number of Topic.doPause / Topic.Start calls completed when the most recent GetTopic returned.
+//@ ghost gGotTopicSawPauses int
+//@ ghost gGotTopicSawStarts int
+//@ ghostgroup getTopicCalls, gGotTopicSawPauses, gGotTopicSawStarts
+
+//@ func readOrEmpty(fn string) ([]byte, error)
+//@   props C06 C05
+//@   nochan
+//@   ensures[one-read-of-fn] gReads == old(gReads) + 1 && gReadName == fn
+//@   ensures[missing-file-is-empty-not-error] gReadErr != nil && gIsNotExist(gReadErr) ==> result0 == nil && result1 == nil
+//@   ensures[other-read-error-returned] gReadErr != nil && !gIsNotExist(gReadErr) ==> result0 == nil && result1 != nil
+//@   ensures[content-returned] gReadErr == nil ==> result0 == gReadData && result1 == nil
+//@   modifies gReads, gReadName, gReadData, gReadErr
+
+// ---- pause / unpause ------------------------------------------------------------------------------
+// gTopicPause*: the most recent Topic.doPause call: count, topic, value. gChanPause*: same for Channel.doPause.
+//@ ghost gTopicPauseCalls int
+//@ ghost gTopicPauseTopic *Topic
+//@ ghost gTopicPauseVal bool
+//@ ghost gChanPauseCalls int
+//@ ghost gChanPauseChan *Channel
+//@ ghost gChanPauseVal bool
+
+//@ func (t *Topic) doPause(pause bool) error
+//@   props C06 C05 C03
+//@   requires t != nil
+//@   ensures[never-fails] result == nil
+//@   ensures[flag] t.paused == (pause ? 1 : 0)
+//@   modifies t.paused, chanstore(int), gTopicPauseCalls, gTopicPauseTopic, gTopicPauseVal
+//@   onreturn gTopicPauseCalls := gTopicPauseCalls + 1
+//@   onreturn gTopicPauseTopic := t
+//@   onreturn gTopicPauseVal := pause
+// Pause / UnPause promise nothing about their error result (doPause never fails today, but the HTTP handlers
+// have a 500 path for it; promising nil here would make that path dead code in the model).
+//@ func (t *Topic) Pause() error
+//@   props C06 C05 C03
+//@   requires t != nil
+//@   ensures[paused] t.paused == 1
+//@   ensures[recorded] gTopicPauseCalls == old(gTopicPauseCalls) + 1 && gTopicPauseTopic == t && gTopicPauseVal
+//@   modifies t.paused, chanstore(int), gTopicPauseCalls, gTopicPauseTopic, gTopicPauseVal
+//@ func (t *Topic) UnPause() error
+//@   props C06 C05 C03
+//@   requires t != nil
+//@   ensures[unpaused] t.paused == 0
+//@   ensures[recorded] gTopicPauseCalls == old(gTopicPauseCalls) + 1 && gTopicPauseTopic == t && !gTopicPauseVal
+//@   modifies t.paused, chanstore(int), gTopicPauseCalls, gTopicPauseTopic, gTopicPauseVal
+
+// Channel.doPause / Pause / UnPause are under contract in zz_contracts_kchannel_verif.go (area K); the lines that record
+// gChanPauseCalls / gChanPauseChan / gChanPauseVal were added there (see changes.diff).
+
+// LoadMetadata (C05/C06: the persisted document is replayed completely).
+//  [missing-file-fresh-start]  a metadata file that does not exist is a fresh start: nil, nothing created;
+//  [reads-the-metadata-file]   the file read is the one PersistMetadata renames to;
+//  [read-error-returned]       any other read error is returned and nothing is created;
+//  [never-writes]              loading never opens a file for writing and never renames;
+//  [loading-flag-reset]        isLoading is 0 again on every path;
+//  loop 0 [entry-replayed]     at the end of the iteration for a valid topic entry e: the last GetTopic was for e.Name,
+//                              Pause ran on that topic after it iff e.Paused, and exactly one Start ran since, on that topic;
+//  loop 0 [channels-before-start] ... and when Start ran, GetChannel had been called on that topic for every valid
+//                              channel name of e (watchName / watchTopic are arbitrary, see zz_contracts_lookup_verif.go);
+//  loop 1 [channel-replayed]   at the end of the iteration for a valid channel entry c: the last GetChannel was
+//                              GetChannel(c.Name) on this topic and Channel.Pause ran on its result after it iff c.Paused;
+//  loop 1 [not-started-yet]    the topic is not started while its channels are being created.
+//@ func (n *NSQD) LoadMetadata() error
+//@   props C06 C05
+//@   requires n != nil && n.ci != nil
+//@   ensures[reads-the-metadata-file] gReads == old(gReads) + 1 && gReadName == gMetaFileOf(curOpts(n).DataPath)
+//@   ensures[missing-file-fresh-start] gReadErr != nil && gIsNotExist(gReadErr) ==> result == nil && getTopicCalls == old(getTopicCalls) && startCount == old(startCount)
+//@   ensures[read-error-returned] gReadErr != nil && !gIsNotExist(gReadErr) ==> result != nil && getTopicCalls == old(getTopicCalls)
+//@   ensures[never-writes] gfsOpens == old(gfsOpens) && gfsWrites == old(gfsWrites) && gfsRenames == old(gfsRenames)
+//@   ensures[loading-flag-reset] n.isLoading == 0
+//@   modifies kNotifies, kInitPQs, n.isLoading, gReads, gReadName, gReadData, gReadErr, n.topicMap, mapstore(map[string]*Topic), Topic.channelMap, mapstore(map[string]*Channel),
+//@        luNames, luErr, luTopic, luCount, luAddrs, watchCreated, startCount, startedTopic, startSawWatch,
+//@        getTopicCalls, gotTopic, gotTopicName, gotTopicAuthSeq, gotTopicAuthOK,
+//@        dqCalls, mapstore(map[MessageID]*Message), mapstore(map[MessageID]*pqueue.Item), Message.index, elems(*Message), elems(*pqueue.Item),
+//@        Topic.paused, Channel.paused, Channel.clients, mapstore(map[int64]Consumer), chanstore(int), kConsPaused, kConsUnpaused, kLastCons,
+//@        gTopicPauseCalls, gTopicPauseTopic, gTopicPauseVal, gChanPauseCalls, gChanPauseChan, gChanPauseVal
+//@   loop 0
+//@     invariant[loading] n.isLoading == 1
+//@     invariant[entry-replayed] rangeindex >= 0 && rangeindex < len(m.Topics) && validName(m.Topics[rangeindex].Name) ==>
+//@          gotTopicName == m.Topics[rangeindex].Name && gotTopic != nil && startedTopic == gotTopic && startCount == gGotTopicSawStarts + 1 &&
+//@          (m.Topics[rangeindex].Paused <==> gTopicPauseCalls == gGotTopicSawPauses + 1 && gTopicPauseTopic == gotTopic && gTopicPauseVal) &&
+//@          (m.Topics[rangeindex].Paused ==> gotTopic.paused == 1) && (!m.Topics[rangeindex].Paused ==> gTopicPauseCalls == gGotTopicSawPauses)
+//@     invariant[channels-before-start] rangeindex >= 0 && rangeindex < len(m.Topics) && validName(m.Topics[rangeindex].Name) && gotTopic == watchTopic ==>
+//@          (forall j int :: {m.Topics[rangeindex].Channels[j]} 0 <= j && j < len(m.Topics[rangeindex].Channels) && m.Topics[rangeindex].Channels[j].Name == watchName && validName(watchName) ==> startSawWatch)
+//@   loop 1
+//@     invariant[loading] n.isLoading == 1
+//@     invariant[topic] topic != nil && topic.nsqd != nil && topic == gotTopic && gotTopicName == t.Name && validName(t.Name)
+//@     invariant[not-started-yet] startCount == gGotTopicSawStarts
+//@     invariant[topic-paused] (!t.Paused ==> gTopicPauseCalls == gGotTopicSawPauses) && (t.Paused <==> gTopicPauseCalls == gGotTopicSawPauses + 1 && gTopicPauseTopic == gotTopic && gTopicPauseVal) && (t.Paused ==> topic.paused == 1)
+//@     invariant[channel-replayed] rangeindex >= 0 && rangeindex < len(t.Channels) && validName(t.Channels[rangeindex].Name) ==>
+//@          gGotChanName == t.Channels[rangeindex].Name && gGotChanTopic == topic && gGotChan != nil &&
+//@          (t.Channels[rangeindex].Paused <==> gChanPauseCalls == gGotChanSawPauses + 1 && gChanPauseChan == gGotChan && gChanPauseVal) &&
+//@          (t.Channels[rangeindex].Paused ==> gGotChan.paused == 1) && (!t.Channels[rangeindex].Paused ==> gChanPauseCalls == gGotChanSawPauses)
+//@     invariant[created-so-far] forall j int :: {t.Channels[j]} 0 <= j && j <= rangeindex && j < len(t.Channels) && t.Channels[j].Name == watchName && validName(watchName) && topic == watchTopic ==> watchCreated
+
+// ---- HTTP pause / unpause (C06: every acknowledged pause/unpause is reflected after a restart) ----
+//@ func (n *NSQD) GetExistingTopic(topicName string) (*Topic, error)
+//@   props C06
+//@   nochan
+//@   requires n != nil
+//@   ensures[found] result1 == nil ==> result0 != nil && result0.nsqd != nil && atlock(has(n.topicMap, topicName)) && result0 == atlock(n.topicMap[topicName])
+//@   ensures[missing] result1 != nil ==> result0 == nil && !atlock(has(n.topicMap, topicName))
+//@   modifies n.topicMap, mapstore(map[string]*Topic)
+
+//@ func (t *Topic) GetExistingChannel(channelName string) (*Channel, error)
+//@   props C06
+//@   nochan
+//@   requires t != nil
+//@   ensures[found] result1 == nil ==> result0 != nil && atlock(has(t.channelMap, channelName)) && result0 == atlock(t.channelMap[channelName])
+//@   ensures[missing] result1 != nil ==> result0 == nil && !atlock(has(t.channelMap, channelName))
+//@   modifies t.channelMap, mapstore(map[string]*Channel)
+
+// ghosts that always change together (each is assigned by every call that assigns one of them)
+//@ ghostgroup gfsRenames, gfsRenameSrc, gfsRenameDst, gfsRenameErr
+//@ ghostgroup gTopicPauseCalls, gTopicPauseTopic, gTopicPauseVal
+//@ ghostgroup gChanPauseCalls, gChanPauseChan, gChanPauseVal
+
+// POST /topic/pause and /topic/unpause.
+//  [ack-means-flag-set]       success = exactly one doPause call, on the topic found, with the value the path asks for;
+//  [ack-means-persisted]      success is answered only after PersistMetadata replaced the metadata file (rename done, no error)
+//                             with a document built AFTER the flag was changed (property: "reflects every pause/unpause that
+//                             was acknowledged over HTTP");
+//  [refused-changes-nothing]  400 / 404 change no flag and write nothing.
+//@ func (s *httpServer) doPauseTopic(w http.ResponseWriter, req *http.Request, ps httprouter.Params) (interface{}, error)
+//@   props C06
+//@   requires s != nil && s.nsqd != nil && http_api.mServerReq(req)
+//@   ensures[status] result1 != nil ==> httpErr(result1, 400) || httpErr(result1, 404) || httpErr(result1, 500)
+//@   ensures[ack-means-flag-set] result1 == nil ==> gTopicPauseCalls == old(gTopicPauseCalls) + 1 && gTopicPauseTopic != nil && gTopicPauseTopic.paused == (gTopicPauseVal ? 1 : 0)
+//@   ensures[ack-means-document-built-after-the-change] result1 == nil ==> gMetaCalls == old(gMetaCalls) + 1 && gMetaOf == s.nsqd && !gMetaEph && gMetaSawTopicPauses == gTopicPauseCalls
+//@   ensures[ack-means-persisted] result1 == nil ==> gfsRenames == old(gfsRenames) + 1 && gfsRenameErr == nil && gfsRenameDst == gMetaFileOf(curOpts(s.nsqd).DataPath)
+//@   ensures[refused-changes-nothing] result1 != nil && !httpErr(result1, 500) ==> gTopicPauseCalls == old(gTopicPauseCalls) && gfsOpens == old(gfsOpens) && gfsRenames == old(gfsRenames)
+//@   modifies mRP, NSQD.topicMap, mapstore(map[string]*Topic), Topic.channelMap, mapstore(map[string]*Channel), Topic.paused, chanstore(int),
+//@        gTopicPauseCalls, gMetaCalls, gMetaDoc, gMetaEph, gMetaOf, gMetaSawTopicPauses, gMetaSawChanPauses, gMarshals, gMarshalArg, gMarshalOut, gMarshalErr,
+//@        gfsOpens, gfsOpenName, gfsOpenFlag, gfsOpenPerm, gfsOpenFile, gfsOpenErr, gfsOpenClosed, gfsWrites, gfsWriteFile, gfsWriteData, gfsWriteErr, gfsWriteAfterClose, gfsSyncs, gfsSyncFile, gfsSyncErr, gfsSyncSawWrites, gfsSyncAfterClose, gfsCloses, gfsCloseFile,
+//@        gfsRenames
+
+//@ func (s *httpServer) getExistingTopicFromQuery(req *http.Request) (*http_api.ReqParams, *Topic, string, error)
+//@   props C06
+//@   nochan
+//@   requires s != nil && s.nsqd != nil && http_api.mServerReq(req)
+//@   ensures[status] result3 != nil ==> (httpErr(result3, 400) || httpErr(result3, 404)) && result1 == nil
+//@   ensures[found] result3 == nil ==> result1 != nil && result1.nsqd != nil && validName(result2)
+//@   modifies mRP, NSQD.topicMap, mapstore(map[string]*Topic)
+
+//@ func (s *httpServer) doPauseChannel(w http.ResponseWriter, req *http.Request, ps httprouter.Params) (interface{}, error)
+//@   props C06
+//@   requires s != nil && s.nsqd != nil && http_api.mServerReq(req)
+//@   ensures[status] result1 != nil ==> httpErr(result1, 400) || httpErr(result1, 404) || httpErr(result1, 500)
+//@   ensures[ack-means-flag-set] result1 == nil ==> gChanPauseCalls == old(gChanPauseCalls) + 1 && gChanPauseChan != nil && gChanPauseChan.paused == (gChanPauseVal ? 1 : 0)
+//@   ensures[ack-means-document-built-after-the-change] result1 == nil ==> gMetaCalls == old(gMetaCalls) + 1 && gMetaOf == s.nsqd && !gMetaEph && gMetaSawChanPauses == gChanPauseCalls
+//@   ensures[ack-means-persisted] result1 == nil ==> gfsRenames == old(gfsRenames) + 1 && gfsRenameErr == nil && gfsRenameDst == gMetaFileOf(curOpts(s.nsqd).DataPath)
+//@   ensures[refused-changes-nothing] result1 != nil && !httpErr(result1, 500) ==> gChanPauseCalls == old(gChanPauseCalls) && gfsOpens == old(gfsOpens) && gfsRenames == old(gfsRenames)
+//@   modifies mRP, NSQD.topicMap, mapstore(map[string]*Topic), Topic.channelMap, mapstore(map[string]*Channel), Channel.paused, Channel.clients, mapstore(map[int64]Consumer), kConsPaused, kConsUnpaused, kLastCons,
+//@        gChanPauseCalls, gMetaCalls, gMetaDoc, gMetaEph, gMetaOf, gMetaSawTopicPauses, gMetaSawChanPauses, gMarshals, gMarshalArg, gMarshalOut, gMarshalErr,
+//@        gfsOpens, gfsOpenName, gfsOpenFlag, gfsOpenPerm, gfsOpenFile, gfsOpenErr, gfsOpenClosed, gfsWrites, gfsWriteFile, gfsWriteData, gfsWriteErr, gfsWriteAfterClose, gfsSyncs, gfsSyncFile, gfsSyncErr, gfsSyncSawWrites, gfsSyncAfterClose, gfsCloses, gfsCloseFile,
+//@        gfsRenames
+
+// ---- Notify: the background persist after a topic/channel creation or deletion ----------------------
+// WaitGroupWrapper.Wrap(cb) only starts `go cb()` (goroutines are skipped by the engine, reported).
+//@ benign (*github.com/nsqio/nsq/internal/util.WaitGroupWrapper).Wrap
+// NSQD.Notify itself is under (trusted) contract in zz_contracts_kchannel_verif.go; here: the body of its goroutine.
+// The goroutine body: PersistMetadata is only ever called between n.Lock() and n.Unlock() (its precondition
+// gTopicsOK is only available from the lock invariant), never while loading, never when persist is false.
+//@ func (n *NSQD) Notify$1()
+//@   props C06
+//@   requires n != nil
+//@   ensures[at-most-one-persist] gMetaCalls == old(gMetaCalls) || gMetaCalls == old(gMetaCalls) + 1
+//@   ensures[not-while-loading-or-unasked] loading || !persist ==> gMetaCalls == old(gMetaCalls) && gfsOpens == old(gfsOpens) && gfsRenames == old(gfsRenames)
+//@   ensures[document-of-this-daemon] gMetaCalls == old(gMetaCalls) + 1 ==> gMetaOf == n && !gMetaEph
+//@   modifies NSQD.topicMap, mapstore(map[string]*Topic), Topic.channelMap, mapstore(map[string]*Channel), chanstore(interface{}), chanstore(int), gMetaCalls, gMetaDoc, gMetaEph, gMetaOf, gMetaSawTopicPauses, gMetaSawChanPauses, gMarshals, gMarshalArg, gMarshalOut, gMarshalErr,
+//@        gfsOpens, gfsOpenName, gfsOpenFlag, gfsOpenPerm, gfsOpenFile, gfsOpenErr, gfsOpenClosed, gfsWrites, gfsWriteFile, gfsWriteData, gfsWriteErr, gfsWriteAfterClose, gfsSyncs, gfsSyncFile, gfsSyncErr, gfsSyncSawWrites, gfsSyncAfterClose, gfsCloses, gfsCloseFile,
+//@        gfsRenames
+
